@@ -33,7 +33,7 @@ var bytesTable = map[string]string{
 }
 
 func ruleBytes(c *Ctx) *RuleResult {
-	r := newResult("R-BYTES", "Lua strings are byte strings: the functions of lib/stringlib (pattern matcher included), lib/tablelib and luastrings other than the utf8 helpers never interpret a string as UTF-8 text — no call to a Unicode-aware standard-library function (strings.ToUpper/ToLower/Title/EqualFold/Map/TrimSpace/Fields..., bytes.*, unicode.*, unicode/utf8.*), no `range` over a string, no conversion between string and []rune — except for the table-listed uses; such an operation changes or drops bytes that are not valid UTF-8 (string.upper('\\xff') became three bytes) and treats non-ASCII letters in a way the C locale does not")
+	r := newResult("R-BYTES", "Lua strings are byte strings: the functions of lib/stringlib (pattern matcher included), lib/tablelib, luastrings other than the utf8 helpers, and the literal decoders and the utf8 library (ast, scanner, parsing, lib/utf8lib — whose \\u{...} escapes and utf8.char go up to 2^31 and include surrogates, which Go's encoders replace by U+FFFD) never interpret or produce text through Go's Unicode-aware routines — no call to a Unicode-aware standard-library function (strings.ToUpper/ToLower/Title/EqualFold/Map/TrimSpace/Fields..., bytes.*, unicode.*, unicode/utf8.*), no `range` over a string, no conversion between string and []rune — except for the table-listed uses; such an operation changes or drops bytes that are not valid UTF-8 (string.upper('\\xff') became three bytes) and treats non-ASCII letters in a way the C locale does not")
 	p := c.P
 	nf, nsites := 0, 0
 	for _, f := range p.ModFuncs() {
@@ -41,12 +41,15 @@ func ruleBytes(c *Ctx) *RuleResult {
 		if f.Blocks == nil || f.Synthetic != "" {
 			continue
 		}
-		if !(strings.HasPrefix(rel, "lib/stringlib") || rel == "lib/tablelib" || rel == "luastrings") {
+		if !(strings.HasPrefix(rel, "lib/stringlib") || rel == "lib/tablelib" || rel == "luastrings" || rel == "lib/utf8lib" || rel == "ast" || rel == "scanner" || rel == "parsing") {
 			continue
 		}
 		if rel == "luastrings" && strings.Contains(p.Pos(f.Pos()), "utf8.go") {
 			continue // the decoding helpers behind the utf8 library
 		}
+		// in the decoders and the utf8 library reading text is their job; what they must
+		// not do is *produce* bytes through Go's encoders, which sanitise
+		producersOnly := rel == "lib/utf8lib" || rel == "ast" || rel == "scanner" || rel == "parsing"
 		nf++
 		owner := f
 		for owner.Parent() != nil {
@@ -82,6 +85,12 @@ func ruleBytes(c *Ctx) *RuleResult {
 				if (isStr(from) && isRunes(to)) || (isRunes(from) && isStr(to)) {
 					what = "string<->[]rune"
 				}
+				if b, ok := from.(*types.Basic); ok && b.Info()&types.IsInteger != 0 && isStr(to) {
+					what = "rune->string"
+				}
+			}
+			if producersOnly && what != "unicode/utf8.EncodeRune" && what != "unicode/utf8.AppendRune" && what != "rune->string" && what != "strings.ToValidUTF8" {
+				return
 			}
 			if what == "" {
 				return
